@@ -24,22 +24,34 @@ Definition unpack (ws : list int) : bytes := List.concat (map (wbytes 8) ws).
 (* ------------------------------------------------------------------ *)
 (** * What the two sides say about one string *)
 
-(** [typ = 0]: a name given to [isAvailable]; otherwise a record type given
-    to [addRecord] / [setRecord]. *)
+(** [typ <= 0]: a name given to [isAvailable] (0), [register] (-1) or
+    [registerTLD] (-2); otherwise a record type given to [addRecord] /
+    [setRecord]. *)
 Definition model_obs (typ : Z) (s : bytes) : val :=
-  if typ =? 0 then name_obs s else record_obs typ s.
+  if typ <=? 0 then name_obs s else record_obs typ s.
 
 (** The grammar's verdict (boolean version, proved equivalent to the
     declarative one in Proofs/NNSSyntaxBool.v). *)
 Definition grammar_b (typ : Z) (s : bytes) : bool :=
-  if typ =? 0 then valid_nameb s else valid_record_datab typ s.
+  if typ <=? 0 then valid_nameb s else valid_record_datab typ s.
 
 Definition is_true (v : val) : bool := match v with VBool true => true | _ => false end.
 
 (* ------------------------------------------------------------------ *)
-(** * Listed strings: groups [(typ, observed, rows of packed strings)] *)
+(** * Listed strings: groups [(typ, observed, rows of packed strings)].
+    The core observation is two-valued and does not look at fault texts:
+    [VBool true] = the invocation HALTed, [VNull] = it FAULTed (the model may
+    say [Halt false] or [Fault]).  When the harness recognises every fault
+    text it refines FAULT into [VBool false] (the check's own panic) and
+    [VFault] (a fault raised inside the check). *)
 
 Definition group : Type := Z * val * list (list (list int)).
+
+Definition obs_agrees (got expected : val) : bool :=
+  match expected with
+  | VNull => negb (is_true got)
+  | _ => val_eqb got expected
+  end.
 
 Definition group_model (g : group) : list (Z * bytes * val) :=
   let '(typ, expected, rows) := g in
@@ -47,7 +59,7 @@ Definition group_model (g : group) : list (Z * bytes * val) :=
     flat_map (fun ws =>
       let s := unpack ws in
       let got := model_obs typ s in
-      if val_eqb got expected then [] else [(typ, s, got)]) row) rows.
+      if obs_agrees got expected then [] else [(typ, s, got)]) row) rows.
 
 Definition group_grammar (g : group) : list (Z * bytes * bool) :=
   let '(typ, expected, rows) := g in
@@ -59,8 +71,8 @@ Definition group_grammar (g : group) : list (Z * bytes * bool) :=
 
 (* ------------------------------------------------------------------ *)
 (** * Exhaustive families: all sequences of at most [n] tokens (at least
-    one), joined by an optional separator, by length and then in the order of
-    the token list. *)
+    one), joined by an optional separator and followed by a fixed suffix, by
+    length and then in the order of the token list. *)
 
 Fixpoint seqs_of_len {A} (toks : list A) (n : nat) : list (list A) :=
   match n with
@@ -77,6 +89,9 @@ Definition glue (sep : option N) (ts : list bytes) : bytes :=
 Definition all_joined (sep : option N) (toks : list bytes) (n : nat) : list bytes :=
   flat_map (fun k => map (glue sep) (seqs_of_len toks k)) (seq 1 n).
 
+Definition all_family (sep : option N) (toks : list bytes) (n : nat) (suffix : bytes) : list bytes :=
+  map (fun s => s ++ suffix) (all_joined sep toks n).
+
 (** Walk the enumeration against the observed sub-list with property [f]
     (same order): the strings on which [f] and the observation differ. *)
 Fixpoint walk (f : bytes -> bool) (all obs : list bytes) (acc : list (bytes * bool)) : list (bytes * bool) :=
@@ -91,23 +106,34 @@ Fixpoint walk (f : bytes -> bool) (all obs : list bytes) (acc : list (bytes * bo
       end
   end.
 
-(** [(typ, separator, tokens, n, accepted, faulted)]: the strings of the family
-    the implementation accepted, and those on which it faulted inside the
-    check, in enumeration order. *)
-Definition family : Type := Z * option N * list bytes * nat * list (list (list int)) * list (list (list int)).
+(** [(typ, separator, tokens, n, suffix, accepted, faulted)]: the strings of
+    the family on which the invocation HALTed, and (refinement, only when the
+    harness recognises the fault texts; empty otherwise) those on which it
+    faulted inside the check, in enumeration order.  The families are run in
+    a prepared state where nothing but the syntactic check can fault. *)
+Definition family : Type :=
+  Z * option N * list bytes * nat * bytes * list (list (list int)) * list (list (list int)).
 
 Definition unrows (rows : list (list (list int))) : list bytes := map unpack (List.concat rows).
 
-Definition family_model (fm : family) : list (Z * bytes * bool) * list (Z * bytes * bool) :=
-  let '(typ, sep, toks, n, acc, flt) := fm in
-  let all := all_joined sep toks n in
-  (map (fun x => (typ, fst x, snd x)) (walk (fun s => is_true (model_obs typ s)) all (unrows acc) []),
-   map (fun x => (typ, fst x, snd x))
-       (walk (fun s => match model_obs typ s with VFault => true | _ => false end) all (unrows flt) [])).
+Definition family_all (fm : family) : list bytes :=
+  let '(typ, sep, toks, n, suffix, acc, flt) := fm in all_family sep toks n suffix.
 
+(** HALT = the model accepts. *)
+Definition family_model (fm : family) : list (Z * bytes * bool) :=
+  let '(typ, sep, toks, n, suffix, acc, flt) := fm in
+  map (fun x => (typ, fst x, snd x))
+      (walk (fun s => is_true (model_obs typ s)) (family_all fm) (unrows acc) []).
+
+(** Refinement: fault inside the check = the model faults. *)
+Definition family_model_faults (fm : family) : list (Z * bytes * bool) :=
+  let '(typ, sep, toks, n, suffix, acc, flt) := fm in
+  map (fun x => (typ, fst x, snd x))
+      (walk (fun s => match model_obs typ s with VFault => true | _ => false end) (family_all fm) (unrows flt) []).
+
+(** HALT = the grammar accepts. *)
 Definition family_grammar (fm : family) : list (Z * bytes * bool) :=
-  let '(typ, sep, toks, n, acc, flt) := fm in
-  map (fun x => (typ, fst x, snd x)) (walk (grammar_b typ) (all_joined sep toks n) (unrows acc) []).
+  let '(typ, sep, toks, n, suffix, acc, flt) := fm in
+  map (fun x => (typ, fst x, snd x)) (walk (grammar_b typ) (family_all fm) (unrows acc) []).
 
-Definition family_size (fm : family) : Z :=
-  let '(typ, sep, toks, n, acc, flt) := fm in Z.of_nat (length (all_joined sep toks n)).
+Definition family_size (fm : family) : Z := Z.of_nat (length (family_all fm)).
